@@ -1,6 +1,7 @@
 import Proofs.TrieBuild
 import Proofs.TrieOfTable
 import Proofs.TrieShape
+import Proofs.TrieBuildClosed
 import Properties.C03Trie
 /-!
 # C03 (trie clause, builder) — lm/search_trie.cc between the ARPA n-grams and the trie memory
@@ -198,5 +199,43 @@ theorem trie_build_refines' (fval : Nat → Rat) (bt : BT) (bound order start : 
         = (fullScore (tableSearch (tableOf (ftOf fval bt order) order)) s w).2 := by
   have := trie_build_refines fval bt bound order start ok hv (shape_ok bt bound order start sm) s w hw hs
   exact ⟨this.1, this.2.2.2.2⟩
+
+
+/-! ## Round 5: G3 for suffix-closed models — end to end without `Represents` -/
+
+open KV.Table KV.Score KV.State in
+/-- **trie_build_represents_closed** — for every well-formed suffix-closed ARPA model (every `lmplz` output) with a value
+encoding (`ArpaEnc`: `P`/`B` give the float bits `read_arpa.cc` stores, `fval` decodes them exactly; zero back-off is `-0.0`
+except the hallucinated `<unk>`), sizes below 2^57: the model of `lm/search_trie.cc` (`buildTable`: visit order, `BlankManager`,
+messages, extension marks) succeeds, creates no blank, and the memory the fold `ofTable` writes from its bit table
+**represents `Table.build a`** — entries, probabilities, back-offs, extends-left (= some longer n-gram ends in it) and
+extends-right (= non-zero back-off, or context of a longer n-gram, or the hallucinated `<unk>`). -/
+theorem trie_build_represents_closed (fval : Nat → Rat) (fadd : Nat → Nat → Nat) (a : Arpa) (bound start : Nat)
+    (P B : List Word → Nat) (enc : ArpaEnc fval a bound P B)
+    (sm : SmallOK (closedTable a.order (visitOrder (gramsOf a P B))) bound a.order) :
+    ∃ b, buildTable fadd a.order (gramsOf a P B) = .ok b ∧ b.blanks = [] ∧
+      Represents fval (ofTable b.table bound a.order start) (Table.build a) (rngOf b.table bound) := by
+  obtain ⟨counts, hb⟩ := buildTable_closed fadd enc
+  refine ⟨_, hb, rfl, ?_⟩
+  have := ofTable_represents' fval _ bound a.order start (closedTable_btok enc) (closedTable_vals enc) sm
+  rw [closed_table_eq enc] at this
+  exact this
+
+open KV.Table KV.Score KV.State in
+/-- **trie_end_to_end_closed** — ARPA → trie builder → memory → every query = the ARPA back-off recursion, with no `Represents`
+and no layout hypothesis: for every well-formed suffix-closed model, `FullScore` over the memory the trie builder writes returns
+`score a h w` for every state reached by left-to-right scoring and every vocabulary word (ids below the bound). -/
+theorem trie_end_to_end_closed (fval : Nat → Rat) (fadd : Nat → Nat → Nat) (a : Arpa) (bound start : Nat)
+    (P B : List Word → Nat) (enc : ArpaEnc fval a bound P B)
+    (sm : SmallOK (closedTable a.order (visitOrder (gramsOf a P B))) bound a.order)
+    (h : List Word) (st : State) (sf : StateFor a h st) (w : Word) (hw : a.gram [w] ≠ none)
+    (hwb : w < bound) (hs : ∀ x ∈ st.words.take st.length, x < bound) :
+    ∃ M, buildTrie fadd a.order bound start (gramsOf a P B) = .ok M ∧
+      (fullScore (search fval M) st w).1.prob = score a h w := by
+  obtain ⟨b, hb, _, rep⟩ := trie_build_represents_closed fval fadd a bound start P B enc sm
+  refine ⟨ofTable b.table bound a.order start, by simp [buildTrie, hb], ?_⟩
+  have hbd : (ofTable b.table bound a.order start).bound = bound :=
+    ofTable_bound _ bound a.order start (by have := enc.wf.order_ge; omega)
+  exact KV.C03Trie.trie_prob a enc.wf (fun _ => false) fval _ _ rep h st sf w hw (by rw [hbd]; exact hwb) (by rw [hbd]; exact hs)
 
 end KV.C03TrieBuild
